@@ -274,3 +274,119 @@ def replay_sum(model, params, clause, info):
     ok = torch.allclose(got, want, atol=1e-10)
     return {"violates": not ok, "detail": f"SumMLL {got.item()} vs mean of members {want.item()}",
             "entry": {"module": "contracts.C02_exact_mll", "function": "replay_sum", "args": [model, list(params), clause, info]}}
+
+
+# ------------------------------------------------------------------ leave-one-out pseudo-likelihood ----------------------------------
+LOO = "gpytorch.mlls.leave_one_out_pseudo_likelihood.LeaveOneOutPseudoLikelihood"
+
+
+@case("C02", clause="loo", name="loo_assembly", expand=lambda ix: [(0,), (1,)], replay=lambda *a: replay_loo(*a), functions=[f"{LOO}.forward", f"{EM}._add_other_terms"], timeout=300)
+def loo_assembly(c, batch_rank):
+    """LeaveOneOutPseudoLikelihood.forward with the Cholesky factor and its solve as callee contracts (KINV = K^-1 from the solve against the identity,
+    ALPHA = K^-1 (y - m)):  sigma2_i = 1 / KINV[i, i],  mu_i = y_i - ALPHA_i sigma2_i,
+        result = ( sum_i [ -1/2 log sigma2_i - 1/2 (y_i - mu_i)^2 / sigma2_i ] + log priors + added loss terms ) / n - 1/2 log(2 pi)
+    i.e. the average of log N(y_i; mu_i, sigma2_i); by the Lean lemma lean/Loo.lean (loo_identity) sigma2_i and mu_i ARE the predictive variance and mean of
+    point i given all other observations, so the value is the average true leave-one-out predictive log density (plus the prior terms, as for the MLL)."""
+    it, ctx = c.it, c.ctx
+    n, b = c.size("n"), c.size("b")
+    c.assume(n.t >= 1)
+    bs = [b.t] if batch_rank else []
+    fdist = make_mvn(c, "f", bs, n.t)
+    M = sym_tensor("marginal_mean", bs + [n.t])
+    y = sym_tensor("y", bs + [n.t])
+    KINV = sym_tensor("Kinv", bs + [n.t, n.t])
+    ALPHA = sym_tensor("Kinv_times_centered_targets", bs + [n.t, z3.IntVal(1)])
+    solves = []
+
+    def chol_solve(rhs, upper=None, **k):
+        solves.append((rhs, upper))
+        return KINV if len(solves) == 1 else ALPHA
+
+    Lf = Stub("cholesky(K)", methods={"_cholesky_solve": chol_solve}, attrs={"shape": VTuple([VNum(e) for e in bs + [n.t, n.t]], is_size=True)}, isa=("LinearOperator",))
+    Kop = Stub("K = cov(likelihood(f))", methods={"cholesky": lambda **k: Lf}, isa=("LinearOperator",))
+    out = Stub("likelihood(f)", attrs={"mean": M, "lazy_covariance_matrix": Kop}, isa=("MultivariateNormal",))
+    lik = module_obj(c, "gpytorch.likelihoods.gaussian_likelihood.GaussianLikelihood", "likelihood")
+    model = module_obj(c, "gpytorch.models.exact_gp.ExactGP", "model")
+    model.fields["_modules"].d["likelihood"] = lik
+    calls = []
+    it.call_hooks.append(lambda it_, ctx_, fi, args, kwargs: (calls.append(list(args[1:])), out)[1] if (not isinstance(fi, tuple) and args and args[0] is lik and fi.name == "__call__") else NotImplemented)
+    dp = c.size("dp")
+    lpp = sym_tensor("logprior", bs + [dp.t])
+    value = sym_tensor("pval", bs + [dp.t])
+    prior = Stub("prior", methods={"log_prob": lambda x: lpp if x is value else sym_tensor("wrong_closure_arg", bs + [dp.t])}, isa=("Prior",))
+    model.fields["_priors"].d["p_prior"] = VTuple([prior, Stub("closure", methods={"__call__": lambda m: value}), NONE])
+    lt = sym_tensor("added", bs)
+    model.fields["_added_loss_terms"].d["term"] = Stub("added_loss", methods={"loss": lambda *a: lt}, isa=("AddedLossTerm",))
+    mll = module_obj(c, LOO, "loo")
+    mll.fields["_modules"].d["likelihood"] = lik
+    mll.fields["_modules"].d["model"] = model
+    res = it.call(ctx, c.getattr(mll, "forward"), [fdist, y], {})
+    ok = len(calls) == 1 and calls[0][0] is fdist and len(solves) == 2
+    c.prove("loo.one_marginal_and_two_solves_with_the_lower_factor", z3.BoolVal(ok and all(isinstance(u, VBool) and u.concrete() is False for _, u in solves)), uppers=[str(u) for _, u in solves])
+    if not ok:
+        return
+    bb = [ivar("b") for _ in bs]
+    i, j = ivar("i"), ivar("j")
+    for v, e in zip(bb + [i, j], bs + [n.t, n.t]):
+        c.assume(z3.And(v >= 0, v < e))
+    eye, rhs = solves[0][0], solves[1][0]
+    c.prove("loo.first_solve_is_against_the_identity", z3.And(z3.BoolVal(len(eye.dims) == 2), eye.dims[0].size == n.t, eye.dims[1].size == n.t, eye.at_dims([i, j]) == z3.If(i == j, z3.RealVal(1), z3.RealVal(0))) if len(eye.dims) == 2 else z3.BoolVal(False))
+    c.prove("loo.second_solve_is_against_the_centered_targets", z3.And(z3.BoolVal(len(rhs.dims) == len(bs) + 2), rhs.dims[-1].size == 1, rhs.at_dims(bb + [i, z3.IntVal(0)]) == y.at(bb + [i]) - M.at(bb + [i])) if len(rhs.dims) == len(bs) + 2 else z3.BoolVal(False))
+    from engine import dom_real
+    log = lambda x: dom_real.apply(c.ctx, "log", x)  # noqa: E731
+    div = lambda a_, b_: dom_real.rdiv(c.ctx, a_, b_)  # noqa: E731  (the engine's division: reciprocal atoms with their ground axioms)
+    s2 = lambda k: div(z3.RealVal(1), KINV.at(bb + [k, k]))  # noqa: E731
+    mu = lambda k: y.at(bb + [k]) - ALPHA.at(bb + [k, z3.IntVal(0)]) * s2(k)  # noqa: E731
+    want_sum = mk_sum(lambda k: z3.RealVal("-1/2") * log(s2(k)) - z3.RealVal("1/2") * div((y.at(bb + [k]) - mu(k)) * (y.at(bb + [k]) - mu(k)), s2(k)), n.t)
+    prior_sum = mk_sum(lambda k: lpp.at(bb + [k]), dp.t)
+    half_log_2pi = log(2 * dom_real.pi(c.ctx)) / 2
+    okr = isinstance(res, VTensor) and len(res.dims) == len(bs)
+    c.prove("loo.value", (res.at_dims(bb) == div(want_sum + prior_sum + lt.at(bb), z3.ToReal(n.t)) - half_log_2pi) if okr else z3.BoolVal(False))
+    c.ctx.assumptions.add("Lean 4.33 kernel and Mathlib are trusted for lean/Loo.lean (real matrices; the held-out point is taken as the last index, kernel matrices being permutation-equivariant)")
+    c.prove_lemma("loo.sigma2_and_mu_are_the_leave_one_out_predictive_moments", "Loo.lean", "loo_identity")
+
+
+def replay_loo(model, params, clause, info):
+    """real LeaveOneOutPseudoLikelihood against the average of the true leave-one-out predictive log densities (dense conditioning on the other n-1 points)"""
+    import math
+    import torch
+    import gpytorch
+    (br,) = params
+    torch.manual_seed(7)
+    n = 6
+    bs = torch.Size([2] if br else [])
+    X = torch.rand(*bs, n, 2, dtype=torch.double)
+    Y = torch.randn(*bs, n, dtype=torch.double)
+
+    class G(gpytorch.models.ExactGP):
+        def __init__(self, lik):
+            super().__init__(X, Y, lik)
+            self.mean_module = gpytorch.means.ConstantMean(batch_shape=bs)
+            self.covar_module = gpytorch.kernels.ScaleKernel(gpytorch.kernels.RBFKernel(batch_shape=bs), batch_shape=bs)
+
+        def forward(self, x):
+            return gpytorch.distributions.MultivariateNormal(self.mean_module(x), self.covar_module(x))
+
+    lik = gpytorch.likelihoods.GaussianLikelihood(batch_shape=bs).double()
+    g = G(lik).double()
+    g.mean_module.constant.data.fill_(0.3)
+    lik.noise = 0.2
+    g.train()
+    mll = gpytorch.mlls.LeaveOneOutPseudoLikelihood(lik, g)
+    with torch.no_grad():
+        got = mll(g(X), Y)
+        K = lik(g(X)).covariance_matrix
+        m = g.mean_module(X)
+        tot = torch.zeros(bs, dtype=torch.double)
+        for i in range(n):
+            rest = [j for j in range(n) if j != i]
+            A = K[..., rest, :][..., :, rest]
+            kv = K[..., rest, i]
+            sol = torch.linalg.solve(A, torch.stack([kv, Y[..., rest] - m[..., rest]], -1))
+            mu = m[..., i] + (kv * sol[..., 1]).sum(-1)
+            var = K[..., i, i] - (kv * sol[..., 0]).sum(-1)
+            tot = tot + (-0.5 * torch.log(2 * math.pi * var) - 0.5 * (Y[..., i] - mu) ** 2 / var)
+        want = tot / n
+    bad = not torch.allclose(got, want, atol=1e-9)
+    return {"violates": bool(bad), "detail": f"LOO pseudo-likelihood {got.tolist()} vs average true leave-one-out log density {want.tolist()}",
+            "entry": {"module": "contracts.C02_exact_mll", "function": "replay_loo", "args": [model, list(params), clause, info]}}
